@@ -206,6 +206,102 @@ def alias_mutations(f):
     return sorted(set(out))
 
 
+# calls that may hand back their argument itself (numpy returns the same array when no conversion is needed) or a view of it
+MAY_RETURN_ARG = ("asarray", "asanyarray", "atleast_1d", "atleast_2d", "ascontiguousarray", "ravel", "reshape", "squeeze", "view",
+                  "transpose", "broadcast_arrays", "astype")
+VIEW_ATTRS = ("T", "flat", "real")
+
+
+def param_mutations(f, P, meths):
+    """In-place mutation of an object the CALLER passed in (statement order; may-alias through numpy's no-copy conversions):
+         x = np.asarray(p) ; x -= 1 / x[i] = ... / x.sort()    ->  reported as 'arg:p'
+       and, transitively, passing such an alias to a method of the class that mutates the corresponding parameter (table P)."""
+    a = f.args
+    params = [x.arg for x in a.posonlyargs + a.args + a.kwonlyargs if x.arg != "self"]
+    alias = {p: "arg:" + p for p in params}
+    out = []
+
+    def base_name(e):
+        while isinstance(e, (ast.Subscript, ast.Attribute)):
+            e = e.value
+        return e.id if isinstance(e, ast.Name) else None
+
+    def may_alias(val):
+        """source parameter if evaluating `val` may give (a view of) an aliased object"""
+        if isinstance(val, ast.Name):
+            return alias.get(val.id)
+        if isinstance(val, ast.Attribute) and val.attr in VIEW_ATTRS:
+            return may_alias(val.value)
+        if isinstance(val, ast.Subscript):
+            return may_alias(val.value)
+        if isinstance(val, ast.Call):
+            fn = val.func
+            nm = fn.attr if isinstance(fn, ast.Attribute) else (fn.id if isinstance(fn, ast.Name) else None)
+            if nm in MAY_RETURN_ARG:
+                cands = list(val.args[:1]) + ([fn.value] if isinstance(fn, ast.Attribute) else [])
+                if nm == "astype" and not any(k.arg == "copy" for k in val.keywords):
+                    return None                                   # astype copies unless copy=False is given
+                for c in cands:
+                    r = may_alias(c)
+                    if r:
+                        return r
+            if nm == "array" and any(k.arg == "copy" and isinstance(k.value, ast.Constant) and k.value.value is False for k in val.keywords):
+                return may_alias(val.args[0]) if val.args else None
+        return None
+
+    def visit(stmts, depth=0):
+        for s in stmts:
+            if isinstance(s, (ast.FunctionDef, ast.ClassDef)):
+                continue
+            own = [n for n in ast.iter_child_nodes(s) if isinstance(n, ast.expr)]
+            targets = s.targets if isinstance(s, ast.Assign) else ([s.target] if isinstance(s, (ast.AugAssign, ast.AnnAssign)) else [])
+            for t in targets:
+                for x in ast.walk(t):
+                    if isinstance(x, (ast.Subscript, ast.Attribute)) and isinstance(getattr(x, "ctx", None), ast.Store):
+                        b = base_name(x)
+                        if b in alias:
+                            out.append(alias[b])
+            if isinstance(s, ast.AugAssign) and isinstance(s.target, ast.Name) and s.target.id in alias:
+                out.append(alias[s.target.id])                    # x -= 1 works in place on arrays and lists
+            for e in own:
+                for n in ast.walk(e):
+                    if isinstance(n, ast.Call) and isinstance(n.func, ast.Attribute):
+                        if n.func.attr in MUTATORS + ("fill", "resize", "put", "itemset", "partition", "reverse"):
+                            b = base_name(n.func.value)
+                            if b in alias:
+                                out.append(alias[b])
+                        # a method of the class that mutates the parameter this alias is bound to
+                        if isinstance(n.func.value, ast.Name) and n.func.value.id == "self" and n.func.attr in meths:
+                            cal = meths[n.func.attr].args
+                            cpar = [x.arg for x in cal.posonlyargs + cal.args if x.arg != "self"]
+                            bound = [(cpar[i], v) for i, v in enumerate(n.args) if i < len(cpar)] + [(k.arg, k.value) for k in n.keywords if k.arg]
+                            for pn, v in bound:
+                                src = may_alias(v)
+                                if src and ("arg:" + pn) in P.get(n.func.attr, ()):
+                                    out.append(src)
+            if isinstance(s, ast.Assign) and len(s.targets) == 1:
+                tg, val = s.targets[0], s.value
+                if isinstance(tg, ast.Name):
+                    src = may_alias(val)
+                    if src:
+                        alias[tg.id] = src
+                    elif depth == 0:
+                        alias.pop(tg.id, None)
+                elif isinstance(tg, (ast.Tuple, ast.List)) and depth == 0:
+                    for el in tg.elts:                              # unpacking gives elements, not the container
+                        if isinstance(el, ast.Name):
+                            alias.pop(el.id, None)
+            for fld in ("body", "orelse", "finalbody"):
+                sub = getattr(s, fld, None)
+                if isinstance(sub, list):
+                    visit(sub, depth + 1)
+            for h in getattr(s, "handlers", []):
+                visit(h.body, depth + 1)
+
+    visit(f.body)
+    return sorted(set(out))
+
+
 def gen(repo):
     tree = ast.parse(open(os.path.join(repo, "gwcs", "wcs.py")).read())
     api = ast.parse(open(os.path.join(repo, "gwcs", "api.py")).read())
@@ -257,13 +353,24 @@ def gen(repo):
                     A[m] = sorted(set(A[m]) | set(A[d]))
                     changed = True
 
+    P = {m: [] for m in meths}
+    changed = True
+    while changed:                       # parameters mutated directly or by handing them to a method that mutates them
+        changed = False
+        for m, f in meths.items():
+            r = param_mutations(f, P, meths)
+            if r != P[m]:
+                P[m] = r
+                changed = True
+
     def tab(T):
         return "[" + "; ".join('("%s", [%s])' % (m, "; ".join('"%s"' % a for a in sorted(T[m]))) for m in sorted(T)) + "]"
     src = ("(* GENERATED by tools/py2coq/gen_writes.py — do not edit. *)\nFrom Coq Require Import List String.\n"
            "Import ListNotations.\nLocal Open Scope string_scope.\n"
            f"Definition writes : list (string * list string) := {tab(W)}.\n"
            f"Definition resets : list (string * list string) := {tab(R)}.\n"
-           f"Definition alias_writes : list (string * list string) := {tab(A)}.\n")
+           f"Definition alias_writes : list (string * list string) := {tab(A)}.\n"
+           f"Definition param_writes : list (string * list string) := {tab(P)}.\n")
     return src, W, R
 
 
@@ -282,3 +389,5 @@ if __name__ == "__main__":
     for q in QUERIES:
         print(q, sorted(W.get(q, ["?"])))
     print(s[s.index("Definition alias_writes"):][:1500])
+    import re
+    print([x for x in re.findall(r'\("(\w+)", \[([^\]]*)\]\)', s[s.index("Definition param_writes"):]) if x[1]])
